@@ -328,8 +328,10 @@ class JsonSchemaGenerator:
                 # will count options.ignore_required in
                 required.append(name)
             elif self.output:
-                if not field.no_default:
+                opts = options or self.options
+                if not field.no_default and not opts.no_default and not (field.defer_default or opts.defer_default):
                     # if field has default, the value is required in the output data
+                    # (unless Options(no_default) / defer_default keep the default out of the data)
                     required.append(name)
 
         data.update(properties=properties)
